@@ -636,12 +636,14 @@ func finish(agg *Agg, planned int, start time.Time) int {
 	}
 	_ = os.MkdirAll(filepath.Join(VerifRoot, "evidence"), 0o755)
 	seenSig := map[string]int{}
+	replayN := 0
 	for _, v := range unknown {
 		seenSig[v.Signature]++
 		if seenSig[v.Signature] > 3 {
 			continue
 		}
-		name := fmt.Sprintf("%s-seed%d-case%d-%d.json", ch.ID, agg.Seed, v.Case, seenSig[v.Signature])
+		replayN++
+		name := fmt.Sprintf("%s-seed%d-case%d-%d.json", ch.ID, agg.Seed, v.Case, replayN)
 		path := filepath.Join(VerifRoot, "replays", name)
 		b, _ := json.MarshalIndent(map[string]any{"property": ch.ID, "seed": agg.Seed, "tier": agg.Tier, "case": v.Case, "signature": v.Signature, "what": v.What, "detail": v.Detail}, "", " ")
 		_ = os.WriteFile(path, b, 0o644)
